@@ -24,6 +24,26 @@ def gen_cases(rng, tier):
                    "rhocp_soil": rng.choice([1.5e6, 2343493.0, 3.2e6]), "rhocp_grout": rng.choice([2.0e6, 3901000.0]),
                    "m_flow": rng.choice([0.02, 0.05, 0.2, 0.5, 1.0]), "fine": (k < (2 if tier == "quick" else 10)),
                    "capture": [0, 1, 2, rng.randrange(10, 400), rng.randrange(400, 1400)]})
+    # tight boreholes: the grout annulus r_b - sqrt(2) r_out only a few millimetres more than the pipes need (thin grout cells)
+    for k in range(2 if tier == "quick" else 8):
+        r_out = rng.choice([0.0167, 0.02108, 0.024])
+        r_b = math.sqrt(2) * r_out + rng.choice([0.012, 0.016, 0.0205, 0.0212])
+        s = max(0.002, min(0.012, 2 * r_b - 4 * r_out - 0.002))
+        if 4 * r_out + s > 2 * r_b:
+            continue
+        cs.append({"r_in": r_out * 0.81, "r_out": r_out, "s": s, "r_b": r_b, "H": rng.choice([60.0, 150.0]), "k_soil": rng.choice([1.5, 2.5]), "k_grout": rng.choice([1.0, 2.0]),
+                   "k_pipe": 0.4, "rhocp_soil": 2343493.0, "rhocp_grout": 3901000.0, "m_flow": rng.choice([0.1, 0.4]), "fine": True,
+                   "capture": [0, 1, 2, rng.randrange(10, 400), rng.randrange(400, 1400)]})
+    # long computed periods (deep boreholes / low diffusivity): more than 45 days of simulated time
+    for (H, ks, cs_) in ([(250.0, 1.0, 3.2e6)] if tier == "quick" else [(250.0, 1.0, 3.2e6), (330.0, 2.0, 3.9e6), (400.0, 1.5, 2343493.0)]):
+        cs.append({"r_in": 0.01336, "r_out": 0.0167, "s": 0.012, "r_b": 0.06, "H": H, "k_soil": ks, "k_grout": 1.4, "k_pipe": 0.4, "rhocp_soil": cs_, "rhocp_grout": 3901000.0,
+                   "m_flow": 0.3, "fine": True, "capture": [0, 1, 2, 300, 1300]})
+    # the same object used for a second borehole (other height, fluid, grout)
+    for k in range(1 if tier == "quick" else 4):
+        cs.append({"r_in": 0.01336, "r_out": 0.0167, "s": 0.01, "r_b": 0.07, "H": rng.choice([80.0, 120.0]), "k_soil": 2.0, "k_grout": 1.0, "k_pipe": 0.4, "rhocp_soil": 2343493.0,
+                   "rhocp_grout": 3901000.0, "m_flow": 0.3, "fine": False, "capture": [0, 1, 2],
+                   "reuse": {"H": rng.choice([60.0, 135.0, 97.5]), "fluid": rng.choice(["PROPYLENEGLYCOL", "water", "ETHYLENEGLYCOL"]), "conc": rng.choice([20.0, 30.0]),
+                             "rhocp_grout": rng.choice([1.5e6, 3901000.0]), "rhocp_soil": rng.choice([2343493.0, 3.0e6])}})     # same geometry and soil conductivity: what a GHE object keeps fixed
     return cs
 
 
@@ -53,6 +73,17 @@ def oracle(chk, c, o):
         # the scheme conserves heat, but the fixed-temperature cell at 10 m lets some of it out of the domain
         bad({"stored": o["stored"], "left_through_far_field": o["leaked"], "injected": o["injected"], "relative": o["stored"] / o["injected"] - 1},
             "the response stores exactly the heat injected (1e-6 relative)", signature=SIG_FAR)
+    # the period the response is REPORTED for (its last ln(t/ts)) is the period heat was injected for; the implementation labels
+    # its k-th solve with (k-1) x 120 s, hence one time step of slack
+    n += 1
+    if abs((o["stored"] + o["leaked"]) - o["t_end_reported"]) > 120.0 * (1 + 1e-6) + 1e-6 * o["t_end_reported"]:
+        bad({"heat_in_the_domain_plus_far_field_flux": o["stored"] + o["leaked"], "unit_flux_x_reported_period": o["t_end_reported"], "solves": o["nsteps"]},
+            "the heat accounted for equals the unit heat flux times the period the response is reported for (within one 120 s step)")
+    ru = o.get("reuse")
+    if ru is not None:
+        n += 1
+        if not (ru["lntts_equal"] and ru["g_equal"] and ru["g_bhw_equal"]):
+            bad({"reused_object_vs_fresh_object": ru}, "an object already used for another borehole gives the response of a fresh object (fluid thermal mass, capacities and conductivities are those of the current borehole)")
     g, gb = o["g"], o["g_bhw"]
     if not all(math.isfinite(v) for v in g + gb):
         bad({"g": g[:5]}, "finite response")
